@@ -134,8 +134,8 @@ def main():
 
 EXTRA_ENGINES = [
     ("sim+c12m", "harness/src/bin/c12m.rs", "C12: simulator with mutate-message tracking (end to end) + set-model engine for ConfirmHistory / ServerMutateTicks / RepliconTick"),
-    ("c06", "harness/src/bin/c06.rs", "hostile-input engine with counting allocator and service check"),
-    ("c13", "harness/src/bin/c13.rs", "single-App configuration state machine"),
+    ("c06", "harness/src/bin/c06.rs", "hostile-input engine with counting allocator, message-release monitor, trigger-target monitor and service check"),
+    ("c13+c13b", "harness/src/bin/c13.rs", "C13: single-App configuration state machine (c13.rs) + client and server Apps on the example backend over loopback TCP around connection closes (c13b.rs)"),
     ("c14", "harness/src/bin/c14.rs", "registration-sequence / protocol-hash / handshake engine"),
     ("c15", "harness/src/bin/c15.rs", "entity codec engine"),
     ("c17", "harness/src/bin/c17.rs", "example backend over loopback sockets"),
